@@ -33,6 +33,14 @@ Theorem C10_governance_needs_bypass_permission : forall ops s, lock_enabled s = 
 Proof. exact governance_protects. Qed.
 Print Assumptions C10_governance_needs_bypass_permission.
 
+(* a version uploaded (by any kind of upload) into a bucket with a default retention rule, without lock headers of its own, is held by
+   that rule as if the request had asked for it: it survives every later sequence of requests, changes and removals of the
+   bucket's rule included (GOVERNANCE: as long as no request carries the bypass flag together with the policy grant) *)
+Theorem C10_default_rule_protects : forall ops m, Forall no_bypass ops ->
+  present (druns (uploaded None (Some m) false) ops) = true /\ ret (druns (uploaded None (Some m) false) ops) = Some (m, true).
+Proof. exact default_rule_protects. Qed.
+Print Assumptions C10_default_rule_protects.
+
 Theorem C10_retention_overwrite_rule : (forall b, put_retention_allowed (Some Compliance) b = false) /\ (forall b, put_retention_allowed (Some Governance) b = b).
 Proof. split; [exact compliance_retention_rule|exact governance_retention_rule]. Qed.
 Print Assumptions C10_retention_overwrite_rule.
